@@ -3,6 +3,7 @@
 // @engine B
 // @entry vfh_C07_unload
 // @tier Q
+// @opts presplit=0
 // @reach unload.compared
 // @funcs IPhreeqc::UnLoadDatabase; IPhreeqc::IPhreeqc
 // @bounds one instance put into a used state in which every wrapper member is dirty (errors, warnings, accumulated lines, selected-output maps for user numbers 1 and 5 incl. a live table, dump string/lines, components, counters); switches and user file names symbolic over on/off (case split, all-equal pattern and one-hot pattern)
@@ -14,6 +15,7 @@
 // @engine B
 // @entry vfh_C07_load_switches
 // @tier Q
+// @opts presplit=0
 // @reach load.returned
 // @funcs IPhreeqc::LoadDatabase; IPhreeqc::LoadDatabaseString
 // @bounds 3 file switches symbolic (8 combinations) x load outcome n in {0,1,2} x test_db outcome {0,1} x both entry points
